@@ -22,6 +22,15 @@ Environment (what the correspondence harness drives): one fake endpoint whose at
 open until `drop i` (after `loseConnection` they are only *closing*); a `prepareConnection` hook whose
 behaviour is chosen by the `csucc` event; a clock with at most one pending retry call (remaining time).
 Every Deferred handed out (whenConnected, stopService) has an id; `fired`/`stopFired` log the firings in order.
+
+* `_ReconnectingProtocolProxy.connectionLost` (`try: return self._protocol.connectionLost(reason) finally:
+  self._lostNotification(reason)`): event `dropH i acts raises` — the transport of connection `i` is gone, the
+  APPLICATION protocol's own `connectionLost` runs first (it is ordinary user code: it may call back into the service —
+  `acts`, a list of whenConnected / startService / stopService calls made while the machine still believes in the
+  connection — and it may then raise, `raises`), and the service is notified (`_clientDisconnected`) in the `finally`,
+  whatever the handler did.  The handler's exception propagates to the reactor afterwards (outcome `raised`), unless
+  the notification itself raised `NoTransition`, which replaces it.  `drop i` is the handler of a plain `Protocol`
+  (`dropH i [] false`).
 -/
 namespace Twisted.App.ClientService
 
@@ -50,15 +59,22 @@ inductive Prep where
   | plain | ok | raise | defer
   deriving DecidableEq, Repr
 
+/-- a call back into the service made by the application protocol's `connectionLost` handler -/
+inductive Act where
+  | when (k : Option Nat) | start | stop
+  deriving DecidableEq, Repr
+
 inductive Ev where
   | start | stop | when (k : Option Nat) | csucc (p : Prep) | cfail | prepok | prepfail
   | drop (i : Nat) | adv (t : Nat)
+  | dropH (i : Nat) (acts : List Act) (raises : Bool)
   deriving DecidableEq, Repr
 
 /-- `rejected`: the service raised `NoTransition` for the event; `skip`: the event does not apply in this
-    environment (nothing to succeed/fail/drop); `dup`: startService while running -/
+    environment (nothing to succeed/fail/drop); `dup`: startService while running; `raised`: the service accepted
+    the event and the application handler's own exception propagated to the caller (the reactor) -/
 inductive Outcome where
-  | ok | skip | dup | rejected
+  | ok | skip | dup | rejected | raised
   deriving DecidableEq, Repr
 
 structure St where
@@ -182,6 +198,20 @@ def mWhen (s : St) (k : Option Nat) : St :=
 
 def outcome (r : St × Bool) : St × Outcome := (r.1, if r.2 then .ok else .rejected)
 
+/-- a service call made from inside the application's `connectionLost` handler: `ClientService.startService`
+    (a duplicate start only logs), `stopService`, `whenConnected` -/
+def stepAct (pol : Nat → Nat) (s : St) : Act → St
+  | .start => if s.running then s else mStart { s with running := true }
+  | .stop => mStop pol { s with running := false }
+  | .when k => mWhen s k
+
+/-- `_ReconnectingProtocolProxy.connectionLost` for connection `i` (already gone from the environment):
+    the application handler's calls, then — in the `finally` — `_clientDisconnected`; the handler's exception
+    (if any) is what the caller sees unless the notification raised `NoTransition` -/
+def proxyConnectionLost (pol : Nat → Nat) (s : St) (acts : List Act) (raises : Bool) : St × Outcome :=
+  let r := clientDisconnected pol (acts.foldl (stepAct pol) s)
+  (r.1, if !r.2 then .rejected else if raises then .raised else .ok)
+
 /-! ### one event of the history -/
 
 def step (pol : Nat → Nat) (s : St) : Ev → St × Outcome
@@ -213,6 +243,9 @@ def step (pol : Nat → Nat) (s : St) : Ev → St × Outcome
   | .drop i =>
     if i < s.conns.length then outcome (clientDisconnected pol { s with conns := s.conns.eraseIdx i })
     else (s, .skip)
+  | .dropH i acts raises =>
+    if i < s.conns.length then proxyConnectionLost pol { s with conns := s.conns.eraseIdx i } acts raises
+    else (s, .skip)
   | .adv t =>
     match s.timer with
     | none => (s, .ok)
@@ -227,5 +260,63 @@ def exec (pol : Nat → Nat) (s : St) : List Ev → List (St × Outcome)
 def run (pol : Nat → Nat) (s : St) : List Ev → St
   | [] => s
   | e :: es => run pol (step pol s e).1 es
+
+/-! ### consumers of the Deferreds that restart the service
+
+A callback that a consumer added to a whenConnected / stopService Deferred runs synchronously when the service fires
+the Deferred — i.e. INSIDE the automat transition that fires it (`unawait`, `failedWhenConnecting`,
+`finishStopping`), or, for a Deferred returned already fired (`succeed`/`fail`), right after the call returns.
+`stopService`/`whenConnected` cannot be called from there (automat: RuntimeError, they return a value), but
+`startService()` can: `ClientService.startService` sets `running` (a duplicate start only logs) and `_machine.start()`
+is POSTPONED by automat to the end of the transition in progress. -/
+
+/-- ids of the whenConnected / stopService Deferreds whose consumer calls `startService()` when the Deferred fires -/
+structure Flags where
+  w : List Nat
+  s : List Nat
+  deriving Repr
+
+/-- a flagged Deferred fired between `s` and `s'` (both logs are append-only) -/
+def restartDue (fl : Flags) (s s' : St) : Bool :=
+  (s'.fired.drop s.fired.length).any (fun f => fl.w.contains f.1)
+    || (s'.stopFired.drop s.stopFired.length).any (fun i => fl.s.contains i)
+
+/-- one outermost call into the service took `s` to `s'`; then the postponed `start` of a restarting consumer -/
+def afterC (pol : Nat → Nat) (fl : Flags) (s s' : St) : St :=
+  if restartDue fl s s' then stepAct pol s' .start else s'
+
+/-- `step` with restarting consumers: every outermost call into the service (each call of a `connectionLost`
+    handler, the notification that follows it, any other event) is followed by the postponed restart -/
+def stepC (pol : Nat → Nat) (fl : Flags) (s : St) : Ev → St × Outcome
+  | .dropH i acts raises =>
+    if i < s.conns.length then
+      let s1 := acts.foldl (fun t a => afterC pol fl t (stepAct pol t a)) { s with conns := s.conns.eraseIdx i }
+      let r := clientDisconnected pol s1
+      (afterC pol fl s1 r.1, if !r.2 then .rejected else if raises then .raised else .ok)
+    else (s, .skip)
+  | e => let r := step pol s e; (afterC pol fl s r.1, r.2)
+
+/-- an event of the history together with what the consumer of the Deferred it returns (stop / when) does -/
+structure EvC where
+  ev : Ev
+  restart : Bool
+  deriving Repr
+
+/-- the Deferred returned by this event gets the next id -/
+def flag (fl : Flags) (s : St) (e : EvC) : Flags :=
+  if e.restart then
+    match e.ev with
+    | .stop => { fl with s := s.nstop :: fl.s }
+    | .when _ => { fl with w := s.nwait :: fl.w }
+    | _ => fl
+  else fl
+
+def execC (pol : Nat → Nat) (fl : Flags) (s : St) : List EvC → List (St × Outcome)
+  | [] => []
+  | e :: es => let fl' := flag fl s e; let r := stepC pol fl' s e.ev; r :: execC pol fl' r.1 es
+
+def runC (pol : Nat → Nat) (fl : Flags) (s : St) : List EvC → St
+  | [] => s
+  | e :: es => let fl' := flag fl s e; runC pol fl' (stepC pol fl' s e.ev).1 es
 
 end Twisted.App.ClientService
